@@ -569,6 +569,40 @@ func (x *Exec) applyContract(st *State, fr *Frame, callee *ssa.Function, con *Co
 	for i, p := range callee.Params {
 		env.vars[p.Name()] = args[i]
 	}
+	if x.con != nil && fr != nil && fr.parent == nil {
+		for _, ba := range x.con.BeforeAsserts {
+			if ba.Callee != funcName(callee) {
+				continue
+			}
+			aenv := &Env{st: st, vars: map[string]Val{}, pkg: x.con.Pkg, old: x.entry, fr: fr}
+			for k, v := range x.params {
+				aenv.vars[k] = v
+			}
+			for i, p := range callee.Params {
+				aenv.vars[p.Name()] = args[i]
+			}
+			g := x.evalSpec(ba.C.E, aenv)
+			lbl := ba.C.Label
+			if lbl == "" {
+				lbl = "before." + ba.Callee
+			}
+			for pi, part := range splitGoal(g.T) {
+				x.emit(st, "post", fmt.Sprintf("assert.%s#%d", lbl, pi+1), ba.C.Text, part, ba.C.Props, pos, fr)
+			}
+			if x.assertEval == nil {
+				x.assertEval = map[*Clause]int{}
+			}
+			x.assertEval[ba.C]++
+		}
+	}
+	if x.con != nil {
+		for _, ba := range x.con.BeforeAssumes {
+			if ba.Callee == funcName(callee) {
+				st.assume(x.evalSpec(ba.E, env).T)
+				x.usedExt["explicit assumption before "+ba.Callee+": "+ba.Src] = true
+			}
+		}
+	}
 	for _, rq := range con.Requires {
 		g := x.evalSpec(rq.E, env)
 		lbl := cname + "." + rq.Label
